@@ -64,7 +64,9 @@ func propC16(c *Ctx) {
 		"field coverage: ExportGenesis sets every field of GenesisState (and of each exported Bridge record); InitGenesis reads every field",
 		"key fidelity: each import setter receives the record's own key parts and value (e.g. SetOutputProposal(bridge id, proposal.OutputIndex, proposal.OutputProposal)); each exported record field comes from the matching key part / value",
 		"key-domain containment: export enumerates bridges through BridgeConfigs, and every per-bridge write at run time requires an existing bridge config (same obligation as C10.R1)",
-		"ValidateGenesis is what the module's ValidateGenesis entry point runs, and it rejects zero ids, sequences below the start, malformed hashes/denoms")
+		"ValidateGenesis is what the module's ValidateGenesis entry point runs, and it rejects zero ids, sequences below the start, malformed hashes/denoms",
+		"record freshness: no slice placed in an exported record is rooted in a variable captured from an enclosing activation, and captured accumulators are only appended to (records never share a backing array)")
+	defer c16Freshness(c)
 	c.NotDecided = append(c.NotDecided, "behavioural equivalence of the re-imported chain (responses to later messages) and byte-identical re-export: these are execution statements; the table agreement above is their structural necessary condition")
 	c.Assumptions = append(c.Assumptions, "A1", "A3", "A10")
 	eff := c.W.BuildEffects()
